@@ -231,6 +231,9 @@ func (p *Path) StrLen(s Str) *smt.Term {
 	if s.Concrete() {
 		return i64(int64(len(s.S)))
 	}
+	if s.Bs != nil {
+		return i64(int64(len(s.Bs)))
+	}
 	if s.Arr != nil {
 		return s.Len
 	}
@@ -285,6 +288,36 @@ func (p *Path) fmtConcrete(s Str) (string, bool) {
 func (p *Path) StrEq(a, b Str) *smt.Term {
 	if a.Concrete() && b.Concrete() {
 		return smt.BoolC(a.S == b.S)
+	}
+	if a.Bs != nil || b.Bs != nil {
+		x, ok1 := a.byteTerms()
+		y, ok2 := b.byteTerms()
+		if ok1 && ok2 {
+			if len(x) != len(y) {
+				return smt.False
+			}
+			c := smt.True
+			for i := range x {
+				c = smt.And(c, smt.Eq(x[i], y[i]))
+			}
+			return c
+		}
+		// against a formatted or array string: go through the array form
+		if !ok1 {
+			a, b, y = b, a, x
+		}
+		// now a has byte terms (y), b is Fmt/Arr
+		if b.Arr != nil {
+			c := smt.Eq(b.Len, i64(int64(len(y))))
+			for i := range y {
+				c = smt.And(c, smt.Eq(smt.Select(b.Arr, i64(int64(i))), y[i]))
+			}
+			return c
+		}
+		if cs, ok := p.fmtConcrete(b); ok {
+			return p.StrEq(a, Str{S: cs})
+		}
+		panic(unsupported("comparison of a symbolic-byte string with a formatted string"))
 	}
 	if a.Fmt != "" {
 		if c, ok := p.fmtConcrete(a); ok {
@@ -349,6 +382,24 @@ func (p *Path) strConcat(a, b Str) Str {
 	if a.Concrete() && b.Concrete() {
 		return Str{S: a.S + b.S}
 	}
+	if a.Bs != nil || b.Bs != nil {
+		if a.Fmt != "" {
+			if cs, ok := p.fmtConcrete(a); ok {
+				a = Str{S: cs}
+			}
+		}
+		if b.Fmt != "" {
+			if cs, ok := p.fmtConcrete(b); ok {
+				b = Str{S: cs}
+			}
+		}
+		x, ok1 := a.byteTerms()
+		y, ok2 := b.byteTerms()
+		if ok1 && ok2 {
+			return MkBytesStr(append(append([]*smt.Term{}, x...), y...))
+		}
+		panic(unsupported("concatenation of a symbolic-byte string with a formatted/array string"))
+	}
 	if a.Concrete() && b.Fmt != "" {
 		return Str{Fmt: strings.ReplaceAll(a.S, "%", "%%") + b.Fmt, Args: b.Args}
 	}
@@ -364,6 +415,19 @@ func (p *Path) strConcat(a, b Str) Str {
 func (p *Path) strIndex(in ssa.Instruction, s Str, idx *smt.Term) Val {
 	ln := p.StrLen(s)
 	p.safety(in, "index", smt.BVUlt(idx, ln), "string index")
+	if s.Bs != nil {
+		if k, ok := idx.Uint64(); ok {
+			return s.Bs[k]
+		}
+		if len(s.Bs) == 0 {
+			p.Stop("infeasible")
+		}
+		r := s.Bs[len(s.Bs)-1]
+		for k := len(s.Bs) - 2; k >= 0; k-- {
+			r = smt.Ite(smt.Eq(idx, i64(int64(k))), s.Bs[k], r)
+		}
+		return r
+	}
 	if s.Concrete() {
 		if k, ok := idx.Uint64(); ok {
 			return smt.BVU(uint64(s.S[k]), 8)
@@ -408,6 +472,13 @@ func (p *Path) strSlice(in ssa.Instruction, s Str, lo, hi *smt.Term) Val {
 		hi = ln
 	}
 	p.safety(in, "slice", smt.And(smt.BVUle(lo, hi), smt.BVUle(hi, ln)), "string slice bounds")
+	if s.Bs != nil {
+		lo = p.ConcretizeTerm(lo, len(s.Bs))
+		hi = p.ConcretizeTerm(hi, len(s.Bs))
+		l, _ := lo.Uint64()
+		h, _ := hi.Uint64()
+		return MkBytesStr(s.Bs[l:h])
+	}
 	if s.Concrete() {
 		l, ok1 := lo.Uint64()
 		h, ok2 := hi.Uint64()
@@ -438,6 +509,13 @@ func (p *Path) strSlice(in ssa.Instruction, s Str, lo, hi *smt.Term) Val {
 }
 
 func (p *Path) strToBytes(s Str) Val {
+	if s.Bs != nil {
+		elems := make([]Val, len(s.Bs))
+		for i := range elems {
+			elems[i] = s.Bs[i]
+		}
+		return p.NewSlice(types.Typ[types.Uint8], elems)
+	}
 	if s.Concrete() {
 		elems := make([]Val, len(s.S))
 		for i := range elems {
@@ -468,11 +546,11 @@ func (p *Path) bytesToStr(s Slice) Val {
 		if allc {
 			return Str{S: string(bs)}
 		}
-		arr := smt.ConstArray(smt.Array(smt.BV(64), smt.BV(8)), smt.BVU(0, 8))
+		bts := make([]*smt.Term, len(el))
 		for i, e := range el {
-			arr = smt.Store(arr, i64(int64(i)), term(e))
+			bts[i] = term(e)
 		}
-		return Str{Arr: arr, Len: s.Len}
+		return MkBytesStr(bts)
 	}
 	a := p.Heap[s.Obj].(*Arr)
 	if a.Elems == nil && isZero(s.Off) {
